@@ -4,9 +4,8 @@ import (
 	"fmt"
 	"io"
 	"log"
+	"strconv"
 	"time"
-
-	"github.com/valyala/fastjson"
 
 	"github.com/cube2222/octosql/octosql"
 	"github.com/cube2222/octosql/physical"
@@ -14,16 +13,14 @@ import (
 
 type JSONFormatter struct {
 	buf    []byte
-	arena  *fastjson.Arena
 	w      io.Writer
 	fields []physical.SchemaField
 }
 
 func NewJSONFormatter(w io.Writer) *JSONFormatter {
 	return &JSONFormatter{
-		buf:   make([]byte, 0, 1024),
-		arena: new(fastjson.Arena),
-		w:     w,
+		buf: make([]byte, 0, 1024),
+		w:   w,
 	}
 }
 
@@ -32,70 +29,108 @@ func (t *JSONFormatter) SetSchema(schema physical.Schema) {
 }
 
 func (t *JSONFormatter) Write(values []octosql.Value) error {
-	obj := t.arena.NewObject()
+	t.buf = append(t.buf, '{')
 	for i := range t.fields {
-		obj.Set(t.fields[i].Name, ValueToJson(t.arena, t.fields[i].Type, values[i]))
+		if i > 0 {
+			t.buf = append(t.buf, ',')
+		}
+		t.buf = appendJSONString(t.buf, t.fields[i].Name)
+		t.buf = append(t.buf, ':')
+		t.buf = ValueToJson(t.buf, t.fields[i].Type, values[i])
 	}
-
-	t.buf = obj.MarshalTo(t.buf)
-	t.buf = append(t.buf, '\n')
+	t.buf = append(t.buf, '}', '\n')
 	t.w.Write(t.buf)
 	t.buf = t.buf[:0]
-	t.arena.Reset()
 	return nil
 }
 
-func ValueToJson(arena *fastjson.Arena, t octosql.Type, value octosql.Value) *fastjson.Value {
+// ValueToJson appends the JSON encoding of value, which is of type t, to dst.
+func ValueToJson(dst []byte, t octosql.Type, value octosql.Value) []byte {
 	if t.TypeID == octosql.TypeIDUnion {
 		for i := range t.Union.Alternatives {
 			if t.Union.Alternatives[i].TypeID == value.TypeID {
-				return ValueToJson(arena, t.Union.Alternatives[i], value)
+				return ValueToJson(dst, t.Union.Alternatives[i], value)
 			}
 		}
 		log.Printf("Invalid value of type '%s' for union type '%s'. Using null.", value.TypeID.String(), t.String())
-		return arena.NewNull()
+		return append(dst, "null"...)
 	}
 
 	switch value.TypeID {
 	case octosql.TypeIDNull:
-		return arena.NewNull()
+		return append(dst, "null"...)
 	case octosql.TypeIDInt:
-		return arena.NewNumberInt(int(value.Int))
+		return strconv.AppendInt(dst, int64(value.Int), 10)
 	case octosql.TypeIDFloat:
-		return arena.NewNumberFloat64(value.Float)
+		return strconv.AppendFloat(dst, value.Float, 'g', -1, 64)
 	case octosql.TypeIDBoolean:
 		if value.Boolean {
-			return arena.NewTrue()
+			return append(dst, "true"...)
 		} else {
-			return arena.NewFalse()
+			return append(dst, "false"...)
 		}
 	case octosql.TypeIDString:
-		return arena.NewString(value.Str)
+		return appendJSONString(dst, value.Str)
 	case octosql.TypeIDTime:
-		return arena.NewString(value.Time.Format(time.RFC3339))
+		return appendJSONString(dst, value.Time.Format(time.RFC3339))
 	case octosql.TypeIDDuration:
-		return arena.NewString(value.Duration.String())
+		return appendJSONString(dst, value.Duration.String())
 	case octosql.TypeIDList:
-		arr := arena.NewArray()
+		dst = append(dst, '[')
 		for i := range value.List {
-			arr.SetArrayItem(i, ValueToJson(arena, *t.List.Element, value.List[i]))
+			if i > 0 {
+				dst = append(dst, ',')
+			}
+			dst = ValueToJson(dst, *t.List.Element, value.List[i])
 		}
-		return arr
+		return append(dst, ']')
 	case octosql.TypeIDStruct:
-		arr := arena.NewObject()
+		dst = append(dst, '{')
 		for i := range value.Struct {
-			arr.Set(t.Struct.Fields[i].Name, ValueToJson(arena, t.Struct.Fields[i].Type, value.Struct[i]))
+			if i > 0 {
+				dst = append(dst, ',')
+			}
+			dst = appendJSONString(dst, t.Struct.Fields[i].Name)
+			dst = append(dst, ':')
+			dst = ValueToJson(dst, t.Struct.Fields[i].Type, value.Struct[i])
 		}
-		return arr
+		return append(dst, '}')
 	case octosql.TypeIDTuple:
-		arr := arena.NewArray()
+		dst = append(dst, '[')
 		for i := range value.Tuple {
-			arr.SetArrayItem(i, ValueToJson(arena, t.Tuple.Elements[i], value.Tuple[i]))
+			if i > 0 {
+				dst = append(dst, ',')
+			}
+			dst = ValueToJson(dst, t.Tuple.Elements[i], value.Tuple[i])
 		}
-		return arr
+		return append(dst, ']')
 	default:
 		panic(fmt.Sprintf("invalid octosql value type to print: %s", value.TypeID.String()))
 	}
+}
+
+// appendJSONString appends s to dst as a JSON string literal (RFC 8259, section 7):
+// the quote, the backslash and control characters are escaped, all other bytes are copied.
+func appendJSONString(dst []byte, s string) []byte {
+	const hex = "0123456789abcdef"
+	dst = append(dst, '"')
+	for i := 0; i < len(s); i++ {
+		switch c := s[i]; {
+		case c == '"' || c == '\\':
+			dst = append(dst, '\\', c)
+		case c == '\n':
+			dst = append(dst, '\\', 'n')
+		case c == '\r':
+			dst = append(dst, '\\', 'r')
+		case c == '\t':
+			dst = append(dst, '\\', 't')
+		case c < 0x20:
+			dst = append(dst, '\\', 'u', '0', '0', hex[c>>4], hex[c&0xf])
+		default:
+			dst = append(dst, c)
+		}
+	}
+	return append(dst, '"')
 }
 
 func (t *JSONFormatter) Close() error {
